@@ -17,7 +17,14 @@ TargetShapes / Pattern): equal to the batch shape of the distribution, extra lea
 unit dimensions, widened unit dimensions of the distribution, both at once - and (dense) inputs that carry the batch shape or
 are shared by a batch of hyperparameter settings.  The definition gives one value per element of the broadcast of the two
 shapes, each divided by the number of observations of ONE batch element; TLC proves the divisor of the transcribed code right
-on every pair (DivisorOK) and must find a counterexample when the divisor is read off the target's shape (slip run)."""
+on every pair (DivisorOK) and must find a counterexample when the divisor is read off the target's shape (slip run).
+(g) part "zoo": the noise structure of the likelihood (homoskedastic / fixed / fixed + learned) x what is forwarded through
+objective(output, target, *params, **kwargs) (noise= as long as the training data given / not given, train inputs as *params), S of
+the dense reference summed by hand from the components the specification lists; and every library class constructed with *_prior
+arguments (ZooClasses x ScaleKernel x ConstantMean x the likelihoods), every parameter of the model at a value of its own, the
+prior terms of the reference computed in closed form at the PUBLIC parameter properties named by the specification (never
+through the registered closures).  TLC proves the transcribed branch order of the noise models gives the defined components and
+must find counterexamples for the slips "stored_first", "second_sees_noise" and "getter_reads_sibling"."""
 import copy
 import io
 import math
@@ -66,7 +73,8 @@ def tla(v):
 
 
 def write_mc(workdir, name, part, repairs=(), archs=("plain",), batches=((),), ns=(3,), maxmodels=1, instances=(), invariants=(),
-             regmenu=(), histlen=0, maxobjs=1, maxgen=0, sethows=("setter",), slips=(), extras=(), divslips=(), patternbatches=()):
+             regmenu=(), histlen=0, maxobjs=1, maxgen=0, sethows=("setter",), slips=(), extras=(), divslips=(), patternbatches=(),
+             zookernels=("rbf",), noisekernels=("rbf",), rots=(0,), zooslips=()):
     os.makedirs(workdir, exist_ok=True)
     mod = "MC_ExactObjective_" + name
     with open(os.path.join(workdir, mod + ".tla"), "w") as f:
@@ -79,7 +87,9 @@ def write_mc(workdir, name, part, repairs=(), archs=("plain",), batches=((),), n
                              "Ns": tlc.Raw("{" + ", ".join(map(str, ns)) + "}"), "MaxModels": maxmodels, "Instances": "<- InstDef",
                              "RegMenu": "<- RegMenuDef", "HistLen": histlen, "MaxObjs": maxobjs, "MaxGen": maxgen,
                              "SetHows": set(sethows), "Slips": set(slips),
-                             "PatternBatches": "<- PatternBatchesDef", "Extras": tlc.Raw("{" + ", ".join(map(str, extras)) + "}"), "DivSlips": set(divslips)},
+                             "PatternBatches": "<- PatternBatchesDef", "Extras": tlc.Raw("{" + ", ".join(map(str, extras)) + "}"), "DivSlips": set(divslips),
+                             "ZooKernels": set(zookernels), "NoiseKernels": set(noisekernels),
+                             "Rots": tlc.Raw("{" + ", ".join(map(str, rots)) + "}"), "ZooSlips": set(zooslips)},
                   invariants=list(invariants))
     return os.path.join(workdir, mod + ".tla"), cfg
 
@@ -711,6 +721,8 @@ def _worker(item):
         t0 = time.process_time()
         if case["kind"] == "dense":
             out.append(dense.run_cell(torch, gpytorch, case))
+        elif case["kind"] == "zoo":
+            out.append(dense.run_zoo(torch, gpytorch, case))
         else:
             out.append(RUNNERS[case["kind"]](torch, gpytorch, case))
         out[-1]["cpu"] = (case["kind"], time.process_time() - t0)
@@ -752,6 +764,30 @@ def check_div_slip_counterexample(ck, r):
                                                    arch=last["c"]["arch"], objective=last["c"]["obj"], observations=last["out"]["exp"]["div"])
 
 
+ZOO_CLASSES = ("rbf", "matern", "rq", "pp", "periodic", "cosine", "linear", "poly", "constk", "cyl", "arc")
+ZOO_NOISE_KERNELS = ("rbf", "periodic")
+
+
+def check_zoo_slip_counterexample(ck, r, slip):
+    """stored_first / second_sees_noise: TLC must find a fixed (+ learned) noise likelihood that is given noise= (ZooNoiseOK fails); getter_reads_sibling: a class
+    with two or more prior arguments whose ranks differ (ZooPriorsOK fails) - otherwise the zoo lacks the cells these defects need"""
+    inv = "ZooPriorsOK" if slip == "getter_reads_sibling" else "ZooNoiseOK"
+    v = r.violation
+    if not v or v.get("name") != inv:
+        ck.vacuous("ExactObjective zoo with the slip %s: TLC found no counterexample to %s" % (slip, inv))
+        return
+    last = plain(v["trace"][-1][1] if isinstance(v["trace"][-1], (tuple, list)) else v["trace"][-1])
+    c, o = last["c"], last["out"]
+    if slip == "stored_first" and not (c["kw"] == "noise" and c["lik"] in ("fixed", "fixedlearn")):
+        ck.vacuous("counterexample of the slip run stored_first is not a fixed noise likelihood given noise=: %s" % (c,))
+    if slip == "second_sees_noise" and not (c["kw"] == "noise" and c["lik"] == "fixedlearn"):
+        ck.vacuous("counterexample of the slip run second_sees_noise is not a fixed + learned noise likelihood given noise=: %s" % (c,))
+    if slip == "getter_reads_sibling" and o["reads"] == [t[2] for t in o["terms"]]:
+        ck.vacuous("counterexample of the slip run getter_reads_sibling reads every parameter at its own rank: %s" % (c,))
+    ck.extra.setdefault("zoo_slip_counterexamples", []).append(dict(slip=slip, cell=c, definition_noise=o["noise"], code_with_slip_noise=o["codeNoise"],
+                                                                    terms=o["terms"], code_with_slip_reads_rank=o["reads"]))
+
+
 # ---------------------------------------------------------------------------------------------
 def run(ck):
     thorough = ck.tier == "thorough"
@@ -775,7 +811,13 @@ def run(ck):
                "of <= 3 operations from {set hyperparameters, copy.deepcopy, fresh model + load_state_dict, pickle round trip} on <= 3 objects), for "
                "EVERY live object: stub digits of both objectives (objective object made with the model / made at evaluation) against the values of "
                "that object's own parameters, and the gradient w.r.t. every raw hyperparameter against autograd of the dense definition; non-trivial = "
-               "at least one prior and at least one operation")
+               "at least one prior and at least one operation.  zoo: every cell of part \"zoo\" ({homoskedastic, fixed, fixed + learned "
+               "additional noise} x {noise= given with one entry per training point, not given} x {train inputs passed as *params, not passed} x batch {(), (2)} "
+               "x objective, over RBF and Periodic kernels; every class of ZooClasses (RBF, Matern, RQ, PiecewisePolynomial, Periodic, Cosine, Linear, "
+               "Polynomial, Constant, Cylindrical, Arc) under a ScaleKernel with ConstantMean and GaussianLikelihood, EVERY *_prior constructor argument "
+               "given, prior families rotated), every parameter set to a value of its own through its public setter; value and gradient w.r.t. every raw "
+               "hyperparameter against [log N(y; m, K + S) + closed-form log densities at the public parameter properties] / N with S summed by hand "
+               "from the components the specification lists; non-trivial = all; distinct = cells")
     ck.assumptions = [
         "exact Cholesky paths only: gpytorch.settings.fast_computations(log_prob=False) and the default setting below max_cholesky_size; the stochastic "
         "CG/Lanczos estimate 'within its statistical tolerance' is not decided",
@@ -788,6 +830,12 @@ def run(ck):
         "decided exactly by the assembly part",
         "the same added-loss term object registered on two modules is not enumerated",
         "missing observations (observation_nan_policy) belong to C16",
+        "a noise= keyword given to the objective is the observation noise of that evaluation: it replaces the stored noise of a fixed noise likelihood "
+        "(FixedNoiseGaussianLikelihood documents it) and the learned noise of a homoskedastic one (HomoskedasticNoise.forward documents it; its prior "
+        "term stays); the learned additional noise of a fixed noise likelihood is added in either case.  LeaveOneOutPseudoLikelihood.forward takes no "
+        "keywords, so noise= is enumerated for the marginal log likelihood only; train inputs as *params for both",
+        "SpectralMixtureKernel (its constructor states that priors are not implemented), HammingKernel (categorical inputs) and the multitask classes' "
+        "task priors are not in the zoo; MultitaskGaussianLikelihood's noise priors are in the dense lattice",
         "float64, 4-7 points (dense) / 2-3 points (assembly), noise >= 0.3 of a signal variance <= 2.7, cond(K+S) <= 1e4 verified on the oracle side",
         "real priors are constructed with float64 tensor parameters (with python floats LogNormalPrior evaluates log(scale) in float32; that is the prior's business)",
         "stub priors are linear in the value they are given, so a prior evaluated at the raw instead of the constrained value decodes to a non-integer",
@@ -827,6 +875,13 @@ def run(ck):
         batches=((), (2,)), patternbatches=((), (2,)), ns=(3,), extras=(3,), invariants=["DivisorOK"], workers=1, divslips=("num_data_from_target",))
     job("sum", "SumMarginalLogLikelihood", "sum", True, repairs=REPAIRS_IN_TREE, ns=(2, 3), maxmodels=3 if thorough else 2, invariants=["SumOK"], workers=2)
     job("lattice", "dense lattice", "lattice", True, invariants=["LatticeOK"], workers=2, extras=lattice_extras)
+    # ---- zoo: noise structure x forwarded arguments; every class with *_prior arguments, every parameter at its own value
+    zoo_kw = dict(ns=(4, 6) if thorough else (5,), zookernels=ZOO_CLASSES, noisekernels=ZOO_NOISE_KERNELS, rots=(0, 1, 2) if thorough else (0, 1))
+    job("zoo", "zoo (noise structure x forwarded arguments, classes with prior arguments)", "zoo", True, invariants=["ZooNoiseOK", "ZooPriorsOK", "ZooDistinct"],
+        workers=2, **zoo_kw)
+    for slip in ("stored_first", "second_sees_noise", "getter_reads_sibling"):
+        job("zoo_slip_" + slip, "zoo with the slip %s (a counterexample is required)" % slip, "zoo", False, invariants=["ZooNoiseOK", "ZooPriorsOK", "ZooDistinct"],
+            workers=1, zooslips=(slip,), **dict(zoo_kw, ns=(5,), rots=(0,)))
     # ---- history machine: registration forms x operations on the model objects
     hist_archs = ("plain", "shared") if "prior_memo" in REPAIRS_IN_TREE else ("plain",)
     hist_kw = dict(repairs=REPAIRS_IN_TREE, ns=(3,), regmenu=REG_MENU_THOROUGH if thorough else REG_MENU, histlen=3, maxobjs=3, maxgen=2,
@@ -853,6 +908,9 @@ def run(ck):
         if jb[1]["name"].endswith("/asm_slip"):
             check_div_slip_counterexample(ck, r)
             continue
+        if "/zoo_slip_" in jb[1]["name"]:
+            check_zoo_slip_counterexample(ck, r, jb[1]["name"].split("/zoo_slip_", 1)[1])
+            continue
         if r.violation:
             # every invariant is a statement about the specification alone (the transcribed code of the tree enters the replay as data: out.agree)
             raise tlc.TLCError("ExactObjective.tla %s violates %s: %s" % (lab, r.violation["name"], str(r.violation["trace"][-1:])[:600]))
@@ -863,7 +921,8 @@ def run(ck):
     r_sum, r_lat = by["sum"], by["lattice"]
     r_rat = [by["rational_%d" % p] for p in range(parts)]
     ck.extra["exhaustive_parts"] = ["assembly lattice", "SumMarginalLogLikelihood member sequences up to the bound", "cells of the dense lattice",
-                                    "histories up to 3 operations / 3 objects / 2 changes of the hyperparameters over the registration menu"]
+                                    "histories up to 3 operations / 3 objects / 2 changes of the hyperparameters over the registration menu",
+                                    "cells of the zoo (noise structure x forwarded arguments; classes with prior arguments)"]
     ck.extra["sampled_parts"] = ["rational instances (seeded)", "float64 data / hyperparameters per dense cell (seeded)"]
 
     def evaluated(res):
@@ -928,6 +987,25 @@ def run(ck):
     if not set(PATTERNS) - {"mixed"} <= set(cell_patterns) or "equal/shared inputs" not in cell_patterns:
         ck.vacuous("dense lattice: (distribution batch, target batch) patterns reached: %s" % sorted(cell_patterns))
     ck.section("dense", cells=ncell, seeds_per_cell=nseeds, cells_by_batch_pattern=dict(sorted(cell_patterns.items())))
+    # ---- zoo
+    nzoo, zoo_seen = 0, dict(classes=set(), noise=set(), forwarded=set(), prior_arguments=set())
+    for st in evaluated(by["zoo"]):
+        cell, out = plain(st["c"]), plain(st["out"])
+        if out["codeNoise"] != out["noise"] or out["reads"] != [t[2] for t in out["terms"]]:
+            raise core.Machinery("zoo state with a false clause passed the invariants: %s" % (out,))
+        nzoo += 1
+        zoo_seen["classes"].add(cell["kernel"])
+        zoo_seen["noise"].add("+".join(k for k in ("call", "stored", "learned", "second") for _ in range(out["noise"][k])))
+        zoo_seen["forwarded"].add("%s/%s/%s" % (cell["lik"], "noise=" if cell["kw"] == "noise" else "-", "inputs" if cell["args"] == "inputs" else "-"))
+        zoo_seen["prior_arguments"].update(t[0] for t in out["terms"])
+        for k in range(2 if thorough else 1):
+            cases.append(dict(kind="zoo", cell=cell, exp=dict(params=out["params"], terms=out["terms"], noise=out["noise"], shape=out["shape"], div=out["div"]),
+                              seed=(ck.seed * 15485863 + nzoo * 37 + k * 11) % (2 ** 31)))
+    if zoo_seen["classes"] != set(ZOO_CLASSES) or zoo_seen["noise"] != {"call", "stored", "learned", "call+second", "stored+second"} or len(zoo_seen["forwarded"]) != 12:
+        ck.vacuous("zoo: classes %s / noise structures %s / forwarded argument combinations %s reached" % (
+            sorted(zoo_seen["classes"]), sorted(zoo_seen["noise"]), sorted(zoo_seen["forwarded"])))
+    ck.section("zoo", cells=nzoo, classes=sorted(zoo_seen["classes"]), noise_structures=sorted(zoo_seen["noise"]),
+               forwarded=sorted(zoo_seen["forwarded"]), parameters_with_prior_argument=sorted(zoo_seen["prior_arguments"]))
     # ---- histories: every reachable state of the machine is one history
     nhist, forms_seen, ops_seen = 0, set(), set()
     for name_, r in by.items():
@@ -985,7 +1063,8 @@ def replay(rep):
     torch = core.setup_torch()
     import gpytorch
     case = rep["case"]
-    r = dense.run_cell(torch, gpytorch, case) if case["kind"] == "dense" else RUNNERS[case["kind"]](torch, gpytorch, case)
+    r = dense.run_cell(torch, gpytorch, case) if case["kind"] == "dense" else dense.run_zoo(torch, gpytorch, case) if case["kind"] == "zoo" \
+        else RUNNERS[case["kind"]](torch, gpytorch, case)
     if not r["ok"]:
         print("VIOLATION property=C02 replay=- :: %s :: %s" % (r["sig"], r["detail"]))
         return 1
